@@ -253,11 +253,22 @@ func (c *Client) acquireLease(name string) (*Lease, error) {
 		c.mu.RUnlock()
 		return nil, ErrServiceUnavailable
 	}
-	server := c.metaServers[0]
-	url := fmt.Sprintf("%s/lease?name=%s&nodeid=%d", c.url(server), name, c.nodeID)
+	urls := make([]string, 0, len(c.metaServers))
+	for _, server := range c.metaServers {
+		urls = append(urls, fmt.Sprintf("%s/lease?name=%s&nodeid=%d", c.url(server), name, c.nodeID))
+	}
 	c.mu.RUnlock()
 
-	resp, err := c.client.Get(url)
+	// Any meta server redirects to the leader: ask the next one when a server
+	// cannot be reached, so that one stopped meta node does not make the lease
+	// (and with it every continuous query) unavailable.
+	var resp *http.Response
+	var err error
+	for _, url := range urls {
+		if resp, err = c.client.Get(url); err == nil {
+			break
+		}
+	}
 	if err != nil {
 		return nil, err
 	}
